@@ -292,7 +292,19 @@ import sys, numpy as np
 from EasyFEA.Models.Elastic import _laws
 cls = getattr(_laws, %(cls)r)
 def P(v):
-    return np.asarray(v, dtype=float) if isinstance(v, list) else float(v)
+    return v if isinstance(v, bool) else np.asarray(v, dtype=float) if isinstance(v, list) else float(v)
+def getter(m, kind):
+    if kind == "readC": return [m.C]
+    if kind == "readS": return [m.S]
+    if kind == "readSqrt": return list(m.Get_sqrt_C_S())
+    if kind == "readWalpole":
+        ci, Ei = m.Walpole_Decomposition(); return [np.asarray(ci, dtype=float), Ei]
+    if kind == "readHet": return [np.array([float(m.isHeterogeneous)])]
+    if kind == "readLambda": return [np.asarray(m.get_lambda())]
+    if kind == "readMu": return [np.asarray(m.get_mu())]
+    if kind == "readBulk": return [np.asarray(m.get_bulk())]
+    if kind == "readSimpl": return [np.array([float(len(m.simplification))]), np.array([float(m.planeStress)])]
+    if kind == "readKt": return [np.asarray(m.kt), np.asarray(m.Gt)]
 held = {k: P(v) for k, v in %(init)r.items()}          # the user's own objects
 m = cls(%(dim)d, **held)
 for op in %(ops)r:
@@ -309,14 +321,13 @@ for op in %(ops)r:
         setattr(m, op[1], held[op[1]])                   # re-assign it
     elif op[0] == "notify":
         m.Need_Update()
-    if op[0] in ("readC", "readS"):
+    if op[0].startswith("read"):
         fresh = cls(%(dim)d, **{k: (np.array(v, copy=True) if isinstance(v, np.ndarray) else v) for k, v in held.items()})
-        got, ref, what = (m.C, fresh.C, "C") if op[0] == "readC" else (m.S, fresh.S, "S")
-        err = np.abs(got - ref).max() / np.abs(ref).max()
+        got, ref = getter(m, op[0]), getter(fresh, op[0])
+        err = max(float(np.abs(np.asarray(a) - np.asarray(b)).max() / max(1e-300, np.abs(np.asarray(b)).max())) if np.shape(a) == np.shape(b) else np.inf for a, b in zip(got, ref))
         if err > 1e-9:
-            print("after", op, ":", what, "read from the object differs from a freshly built law of the current parameters by", err)
-            print("current parameters as the object reports them:", {k: np.asarray(getattr(m, k)).ravel()[:3] for k in held})
-            print(what + "[...,0,0] read :", np.asarray(got)[..., 0, 0].ravel()[:3], " fresh:", np.asarray(ref)[..., 0, 0].ravel()[:3])
+            print("after", op, ": the getter's value on the object differs from the same getter on a freshly built law of the current parameters by", err)
+            print("  object:", np.asarray(got[0]).ravel()[:4], "\n  fresh: ", np.asarray(ref[0]).ravel()[:4])
             sys.exit(1)
 print("every read reflected the current parameters")
 sys.exit(0)
@@ -483,7 +494,7 @@ def build_cases(ctx, lw):
                 meta["aniso"].append({"dim": dim, "Ck": Ck, "axes": [a, b], "voigt": voigt})
     # ---- lazy update: scalar and array-valued (per element / per Gauss point) parameters; assignments of a
     #      new object, of an equal-valued copy, and of THE SAME array after an in-place edit
-    for rep in range(6 if quick else 30):
+    for rep in range(10 if quick else 40):
         cname = rng.choice(["Isotropic", "TransverselyIsotropic"])
         dim = rng.choice([2, 3])
         fshape = [(), (3,), (2, 3)][rep % 3]
@@ -495,14 +506,28 @@ def build_cases(ctx, lw):
         names = list(pts[0].keys())
         arrname = "E" if cname == "Isotropic" else "El"      # the array-valued parameter
         cur = {k: (field_of([p[k] for p in pts]) if k == arrname else pts[0][k]) for k in names}
+        if dim == 2:
+            cur["planeStress"] = rng.random() < 0.5
+        getters = ["readC", "readS", "readSqrt", "readSqrt", "readWalpole", "readHet", "readSimpl"] + \
+            (["readLambda", "readMu", "readBulk"] if cname == "Isotropic" else ["readKt"])
+        forced = getters[rep % len(getters)] if rep % 2 == 0 else "readSqrt"   # this getter is read, a setter follows, it is read again FIRST
         states = [json.loads(json.dumps(cur))]
         ops, mops = [], []
-        for step in range(rng.randint(4, 12)):
+        for step in range(rng.randint(5, 12)):
             k = rng.random()
             if step == 1:
                 k = 0.3          # make sure the aliasing assignment occurs after a read
-            if step == 0:
-                k = 0.6
+            if step in (0, 2):
+                ops.append([forced])
+                mops.append(("read", forced))
+                continue
+            if step == 3 and dim == 2 and rng.random() < 0.5:
+                cur = dict(cur)
+                cur["planeStress"] = not cur["planeStress"]
+                states.append(json.loads(json.dumps(cur)))
+                ops.append(["set", "planeStress", cur["planeStress"]])
+                mops.append(("set", False, len(states) - 1))
+                continue
             if k < 0.2:          # new object
                 newp = [gen_params(rng, cname) for _ in range(npts)]
                 name = rng.choice(names)
@@ -527,13 +552,14 @@ def build_cases(ctx, lw):
                 ops.append(["set_copy", arrname])
                 mops.append(("set", False, len(states) - 1))
             elif k < 0.92:
-                ops.append([rng.choice(["readC", "readS"])])
+                ops.append([rng.choice(getters)])
                 mops.append(("read", ops[-1][0]))
             else:
                 ops.append(["notify"])
                 mops.append(("notify",))
-        ops += [["readC"], ["readS"]]
-        mops += [("read", "readC"), ("read", "readS")]
+        last = [rng.choice(getters), "readC", "readS"]
+        ops += [[x] for x in last]
+        mops += [("read", x) for x in last]
         req["lazy"].append({"cls": cname, "dim": dim, "init": states[0], "ops": ops})
         meta["lazy"].append({"cls": cname, "dim": dim, "states": states, "mops": mops, "fshape": fshape})
     # ---- boundary of the descriptor ranges: the value 0 passes PositiveParameter
@@ -790,10 +816,23 @@ def correspondence(ctx, lw, pm):
             nread = 0
             for (sid, got, fresh, kind) in zip(ids, r["reads"], r["fresh"], kinds):
                 nread += 1
-                got, fresh = np.array(got), np.array(fresh)
-                e_ = relerr(got, fresh)
-                st = m["states"][sid]
-                if have and e_ <= 1e-9:
+                count("lazy-read:" + kind)
+                if isinstance(got, dict) or isinstance(fresh, dict):
+                    e_ = 0.0 if (isinstance(got, dict) and isinstance(fresh, dict) and got["raises"].split(":")[0] == fresh["raises"].split(":")[0]) else float("inf")
+                    got_l = fresh_l = []
+                else:
+                    got_l, fresh_l = [np.array(x, dtype=float) for x in got], [np.array(x, dtype=float) for x in fresh]
+                    e_ = max([relerr(a_, b_) for a_, b_ in zip(got_l, fresh_l)] + [0.0 if len(got_l) == len(fresh_l) else float("inf")])
+                if kind == "readSqrt" and got_l:
+                    nn = got_l[0].shape[-1]
+                    e_ = max(e_, relerr(got_l[0] @ got_l[1], np.broadcast_to(np.eye(nn), got_l[0].shape)))
+                    e_ = max(e_, relerr(got_l[0] @ got_l[0], fresh_l[0] @ fresh_l[0]), relerr(got_l[1] @ got_l[1], fresh_l[1] @ fresh_l[1]))
+                st = {a_: v_ for a_, v_ in m["states"][sid].items() if a_ != "planeStress"}
+                if dim_ps := (m["dim"] == 2):
+                    cfg = "ps" if m["states"][sid].get("planeStress", True) else "pe"
+                    n = 3
+                got = got_l[0] if got_l else None
+                if have and e_ <= 1e-9 and kind in ("readC", "readS"):
                     # the fresh law itself must be the law of the contents the model says are in force
                     npts = int(np.prod(m["fshape"])) if m["fshape"] else 1
                     G = got.reshape((-1, n, n))
@@ -818,8 +857,9 @@ def correspondence(ctx, lw, pm):
                             if cnt == nread:
                                 break
                     viol.append(("lazy-update:%s" % m["cls"],
-                                 "%s (%s parameters): after ops %s a read of %s does not reflect the current parameter contents (rel. %.2e vs a freshly built law)"
-                                 % (m["cls"], {0: "scalar", 1: "per-element", 2: "per-Gauss-point"}[len(m["fshape"])], [o[:2] for o in upto], kind[4:], e_),
+                                 "%s (%s parameters): after ops %s the getter %s does not reflect the current parameter contents (rel. %.2e vs a freshly built law)"
+                                 % (m["cls"], {0: "scalar", 1: "per-element", 2: "per-Gauss-point"}[len(m["fshape"])], [o[:2] for o in upto],
+                                    {"readSqrt": "Get_sqrt_C_S()", "readWalpole": "Walpole_Decomposition()", "readHet": "isHeterogeneous", "readC": "C", "readS": "S"}.get(kind, kind[4:]), e_),
                                  {"replay_py": REPLAY_LAZY % dict(cls=m["cls"], dim=m["dim"], init=req["lazy"][k]["init"], ops=upto),
                                   "ops": upto, "init": req["lazy"][k]["init"], "cls": m["cls"], "dim": m["dim"]}))
                     break
